@@ -77,6 +77,14 @@ class C05(Property):
             enc = rng.choice(["utf8", "utf8", "utf8bom", "utf16le", "utf16be"])
             data = encodings(text)[enc]
             cases.append(Case("frame " + hexs(data), tags=("random", enc)))
+            # "decoding a file" is the same whichever way the reader hands the bytes over: a tenth of the files is also
+            # delivered with a short first chunk (1 or 2 bytes: inside the BOM / before the BOM can be recognised) or in small chunks
+            if rng.random() < 0.1 and len(data) > 4:
+                cut = rng.choice([1, 2, 3, rng.randint(1, 7)])
+                rest = data[cut:]
+                step = rng.choice([len(rest), len(rest), 3, 5, 64])
+                parts = [data[:cut]] + [rest[i:i + step] for i in range(0, len(rest), max(1, step))]
+                cases.append(Case("framesched " + " ".join("c" + hexs(p) for p in parts if p), tags=("chunked-" + enc,)))
         for f in bundled_files():
             data = open(f, "rb").read()
             cases.append(Case("frame " + hexs(data), tags=("bundled",)))
